@@ -9,8 +9,18 @@
              '404') | "bytes" (a status line as a byte string) | "bytescode" (b'404')
      method  request method
      text, data, media   byte length of that body source, -1 = not set
-     stream  "none" | "iter" (iterable with close()) | "file" (file-like with close()) |
-             "plain" (iterable without close());  chunks = what it produces, in order: the length
+     stream  the kind of object the application assigned to resp.stream:
+             "none" | "iter" (an iterator - its own iterator - with close()) |
+             "iterable" (an iterable with close() that is NOT its own iterator, e.g. a class whose __iter__ /
+             __aiter__ is a generator function: iter(stream) is a derived object; close() is owed to the
+             object the application assigned, not to anything derived from it) |
+             "file" (file-like with close() whose read(n) returns short blocks: pipe / socket-like, every
+             scripted block is non-empty and shorter than asked for; the end of the data is b'' only) |
+             "filefull" (file-like with close() that honours n: the data is one byte string, read(n) returns
+             exactly n bytes while that many are left, then the rest, then b''; chunks = the data as a list of
+             segment lengths, whose boundaries need not coincide with the blocks, see Blocks) |
+             "plain" (iterable without close()).  On ASGI the same kinds with async read / __aiter__ / close.
+             chunks = what it produces, in order: the length
              of a block of bytes (0 = an empty block; for a file-like stream an empty block *is*
              the end, so 0 does not occur there) or -1 = None.  None is an ASGI matter: a file-like
              stream's read() may return None for "no data yet" (an empty body block is sent and
@@ -54,11 +64,21 @@
                         error response is forgotten: none, or the application's stale one
      ReturnOnDisconnect after a client disconnect the SSE loop returns instead of ending the response:
                         no body event with more_body false is ever sent
+     CloseDerivedIterator  the framework hands the server (or iterates itself) iter(stream) instead of the stream,
+                        so close() reaches the derived iterator and not the object the application assigned
+     StopAtShortBlock   the reading loop of a file-like stream takes a block shorter than it asked for as the
+                        last one: the rest of a pipe-like reader's data is never sent
+     (the last two are definitions, FALSE here and overridden by `Op <- ..` in the configuration files of the
+      bounded instances, so that modules instantiating this one need not bind them)
      StatusStringAsIs   the WSGI side hands a status that already is a str to start_response
                         unchanged, so the bare code '404' goes out as the status line "404"      *)
 EXTENDS Integers, Sequences, FiniteSets, TLC
 
 CONSTANTS RenderSetsType, BodilessByLine, ForgetCloseOnFault, StaleLengthOnRenderFault, StatusStringAsIs, ReturnOnDisconnect
+
+CloseDerivedIterator == FALSE
+StopAtShortBlock     == FALSE
+BlockSize == 8192                       \* what the framework asks a file-like stream for at a time (D-level)
 
 BODILESS == {100, 101, 204, 304}
 TYPELESS == {204, 304}
@@ -79,14 +99,23 @@ Chosen(c) == IF IsAsgi(c) /\ c.sse >= 0 THEN "sse"
              ELSE "none"
 Streamed(c)      == Chosen(c) \in {"stream", "sse"}
 (* an async iterator / generator ends at its first None *)
-NoneEnds(c)      == IsAsgi(c) /\ c.stream \in {"iter", "plain"}
+NoneEnds(c)      == IsAsgi(c) /\ c.stream \in {"iter", "iterable", "plain"}
+FileLike(c)      == c.stream \in {"file", "filefull"}
 RECURSIVE UpToNone(_)
 UpToNone(l)      == IF l = <<>> \/ Head(l) = -1 THEN <<>> ELSE <<Head(l)>> \o UpToNone(Tail(l))
-LiveChunks(c)    == IF NoneEnds(c) THEN UpToNone(c.chunks) ELSE c.chunks      \* the blocks that are sent
+LiveChunks(c)    == IF NoneEnds(c) THEN UpToNone(c.chunks) ELSE c.chunks      \* everything the source delivers
+RECURSIVE SumSeq(_)
+SumSeq(l)        == IF l = <<>> THEN 0 ELSE (IF Head(l) > 0 THEN Head(l) ELSE 0) + SumSeq(Tail(l))
+(* n bytes read in blocks of BlockSize: full blocks, then the rest *)
+Reblock(n)       == [i \in 1..((n + BlockSize - 1) \div BlockSize) |-> IF i * BlockSize <= n THEN BlockSize ELSE n - (i - 1) * BlockSize]
+(* what the successive reads / next() calls return before the end: the scripted items, or - for a file-like that
+   honours the size - the data cut into blocks of BlockSize *)
+Blocks(c)        == IF c.stream = "filefull" THEN Reblock(SumSeq(c.chunks)) ELSE LiveChunks(c)
 SsePiece(c, i)   == <<IF c.sk[i + 1] = 1 THEN "sse" ELSE "ping", i>>
 MediaRendered(c) == c.text < 0 /\ c.data < 0 /\ c.media >= 0      \* rendering ignores stream / sse
 RenderedLen(c)   == IF c.err >= 0 THEN c.err ELSE IF c.text >= 0 THEN c.text ELSE IF c.data >= 0 THEN c.data ELSE c.media   \* -1: nothing rendered
-HasClose(c)      == c.stream \in {"iter", "file"}
+HasClose(c)      == c.stream \in {"iter", "iterable", "file", "filefull"}
+DerivedIter(c)   == c.stream = "iterable"                 \* iter(stream) is not the stream
 Faulty(c)        == c.fk # "none"
 
 (* ---- a render-phase fault ----
@@ -156,7 +185,16 @@ RECURSIVE StreamPieces(_, _, _)
 StreamPieces(src, lens, i) ==
     IF i >= Len(lens) THEN <<>>
     ELSE (IF lens[i + 1] > 0 THEN <<<<src, i>>>> ELSE <<>>) \o StreamPieces(src, lens, i + 1)
-(* the pieces the property's precedence rule prescribes for a complete response *)
+(* a streamed body whose block boundaries are not the source's segment boundaries (kind filefull): the pieces are
+   the segments wholly contained in the n bytes received *)
+RECURSIVE SegPieces(_, _, _)
+SegPieces(lens, i, n) ==
+    IF i >= Len(lens) \/ lens[i + 1] > n THEN <<>>
+    ELSE (IF lens[i + 1] > 0 THEN <<<<"stream", i>>>> ELSE <<>>) \o SegPieces(lens, i + 1, n - lens[i + 1])
+ObsPieces(cc, e) == IF cc.stream = "filefull" /\ Chosen(cc) = "stream"
+                    THEN SegPieces(cc.chunks, 0, Bytes(e)) ELSE Pieces(e)
+(* the pieces the property's precedence rule prescribes for a complete response: for a stream the concatenation
+   of everything the source delivers, whatever the kind of object and however it is cut into blocks *)
 ExpectedPieces(c) ==
     IF Bodiless(c) THEN <<>>
     ELSE CASE Chosen(c) = "sse"    -> [i \in 1..c.sse |-> SsePiece(c, i - 1)]
@@ -194,6 +232,7 @@ BodilessHaveNoBytesC(o) == Bodiless(o.c) => Bytes(o.ev) = 0
 TypelessHaveNoFrameworkTypeC(o) == (Typeless(o.c) /\ Starts(o.ev) > 0) => StartOf(o.ev).ct # "fw"
 OthersHaveTypeC(o) == (~Typeless(o.c) /\ Starts(o.ev) > 0) => StartOf(o.ev).ct # "none"
 StatusLineWellFormedC(o) == Starts(o.ev) > 0 => StartOf(o.ev).sl
+(* closes = close() calls on the object the application assigned to resp.stream *)
 CloseExactlyOnceOnceBegunC(o) ==
     /\ o.closes <= 1
     /\ (o.ended /\ o.begun /\ HasClose(o.c)) => o.closes = 1
@@ -262,7 +301,7 @@ StreamRead ==
     /\ IF c.fk = "stream" /\ c.fa = k
        THEN raised' = TRUE /\ pc' = "fault" /\ UNCHANGED <<ev, k, hand>>
        ELSE /\ raised' = raised
-            /\ IF k < Len(c.chunks) /\ ~(NoneEnds(c) /\ c.chunks[k + 1] = -1)
+            /\ IF k < Len(Blocks(c)) /\ ~(StopAtShortBlock /\ FileLike(c) /\ k > 0 /\ Blocks(c)[k] < BlockSize)
                THEN hand' = k /\ k' = k + 1 /\ pc' = "chunk" /\ ev' = ev
                ELSE /\ pc' = "exhausted" /\ UNCHANGED <<k, hand>>
                     /\ ev' = IF IsAsgi(c) THEN ev ELSE Append(ev, EofEvt)   \* the server sees StopIteration
@@ -270,7 +309,7 @@ StreamRead ==
 
 StreamSendChunk ==
     /\ pc = "chunk"
-    /\ Send(BodyEvt(IF c.chunks[hand + 1] < 0 THEN 0 ELSE c.chunks[hand + 1], TRUE, "stream", hand), "read", "fault")
+    /\ Send(BodyEvt(IF Blocks(c)[hand + 1] < 0 THEN 0 ELSE Blocks(c)[hand + 1], TRUE, "stream", hand), "read", "fault")
     /\ hand' = -1
     /\ UNCHANGED <<c0, c, k, begun, closes, raised>>
 
@@ -279,7 +318,7 @@ StreamSendChunk ==
    reach the stream) *)
 CloseStream ==
     /\ pc \in {"fault", "exhausted"}
-    /\ closes' = closes + (IF HasClose(c) /\ ~(ForgetCloseOnFault /\ pc = "fault") THEN 1 ELSE 0)
+    /\ closes' = closes + (IF HasClose(c) /\ ~(ForgetCloseOnFault /\ pc = "fault") /\ ~(CloseDerivedIterator /\ DerivedIter(c)) THEN 1 ELSE 0)
     /\ pc' = IF pc = "exhausted" /\ IsAsgi(c) THEN "final" ELSE "done"
     /\ UNCHANGED <<c0, c, ev, k, hand, sends, begun, raised, sendFailed>>
 
@@ -308,7 +347,7 @@ SseSend ==
 
 Next == RenderFails \/ SendStart \/ SendBody \/ SendEmpty \/ StreamRead \/ StreamSendChunk \/ CloseStream \/ Eof \/ SseNext \/ SseSend
 
-Obs == [c |-> c, ev |-> ev, pieces |-> Pieces(ev), begun |-> begun, closes |-> closes,
+Obs == [c |-> c, ev |-> ev, pieces |-> ObsPieces(c, ev), begun |-> begun, closes |-> closes,
         complete |-> (pc = "done" /\ ~raised /\ ~sendFailed), ended |-> pc = "done"]
 
 ExactlyOneStart             == ExactlyOneStartC(Obs)
